@@ -478,7 +478,9 @@ fn cli_loop(doc: &[u8], prog: &str, indent: usize) -> String {
         return format!("LOOP-FAIL yaml-run rc={rc1} err={}", hex_bytes(&y_err[..y_err.len().min(80)]));
     }
     let y_txt = String::from_utf8_lossy(&y_out).into_owned();
-    if let Err(name) = alias_order_ok(&y_txt) {
+    // a result that is a bare string is printed raw (K1): `*x` there is text, not an alias
+    let raw_string_result = String::from_utf8_lossy(&j_out).split('\n').any(|l| l.starts_with('"'));
+    if let (Err(name), false) = (alias_order_ok(&y_txt), raw_string_result) {
         let route = if prog == "." { "identity" } else if is_pure_path(prog) { "nav" } else { "write" };
         let cls = if seq_first_key_multiline_plain(doc) { "loader-K7" } else { alias_class(doc, &name) };
         return format!("ALIAS-FAIL {cls} route={route} name={name} out={}", hex_bytes(&y_out[..y_out.len().min(300)]));
